@@ -38,6 +38,11 @@ POOL = [
     "void k(void){ for(;;) { if (a) {", "typedef int a; a b;", "void m(void) { a * b; }", "struct E {};", "void n(void) { struct {} e; }",
     "void f(void) { if (1) { x = 1; } else { } }", "#line 9 \"z.c\"\nint", "int y; // c", "f() { return 1; }", "main() { }\ng(a, b) { return a; }",
     "int k(a) char a; { return a; }", "static f(void); extern g();", "void p(void) { register r(); }",
+    # runs of adjacent string literals, and inputs that fail right behind / inside such a run
+    'char *s = "a" "b" "c";', 'char *s = "a" "b" @;', 'char *s = "ab" "cd" // x', 'char *s = "a" "b" "c', 'int *w = L"p" L"q";', 'int *w = L"a" L"b" `',
+    'char *t = u8"x" u8"y" u8"z"; char *v = "1" "2";', 'void f(void) { g("a" "b", "c" "d" @); }', '_Static_assert(1, "m" "n" $@',
+    # inputs that fail exactly at a #pragma / _Pragma token in a place the grammar cannot take one
+    "int x =\n#pragma omp atomic\n 1;", "void f(void) { do x; \n#pragma q r\n while (0); }", "enum E { A,\n#pragma in enum\n B };", "int g(void)\n#pragma before body\n{ }",
 ]  # fmt: skip
 
 
